@@ -57,6 +57,10 @@ CHECKS = {
    text="Generated recursive values driving every Serializer entry point; a recording serializer / deserializer with failure injected at the k-th call; handle versus plain value must produce identical call logs, results and errors; deserialised handles are fresh sole owners; no tracked block survives an error or the results.",
    note="Trusted: the harness's recording serializer/deserializer and serde's value deserializers; default feature configuration.",
    technique="differential property testing with k-th-call fault injection (proptest)"),
+ "C15": dict(engine="uninit", category="exploration", design="5 (C15)",
+   text="Generated (API, length, mask of written slots, sharing state, fate) over all uninitialised constructors with identity-tracked header and elements: dropping before assume_init runs no element destructor and touches no unwritten slot, the header dies exactly once; assume_init keeps block, count and contents; afterwards every element dies exactly once; deprecated writers panic iff shared and change nothing.",
+   note="Trusted: Tok registry (drops per id), 0xA5 fill + magic check for unwritten slots, tracking allocator.",
+   technique="property-based testing over generated write-masks and sharing states with an identity-tracking oracle (proptest)"),
 }
 NOT_YET = {
 }
@@ -93,6 +97,7 @@ m = {
    {"name": "c16-children", "path": "harness/eng/src/c16.rs", "serves_properties": ["C16"], "kind_free_text": "child-process outcome engine"},
    {"name": "cmp", "path": "harness/eng/src/cmp.rs", "serves_properties": ["C14"], "kind_free_text": "comparison/hash/format differential engine, exhaustive over a small domain + random"},
    {"name": "serde", "path": "harness/eng/src/serde_eng.rs", "serves_properties": ["C17"], "kind_free_text": "recording serializer/deserializer differential engine"},
+   {"name": "uninit", "path": "harness/eng/src/uninit.rs", "serves_properties": ["C15"], "kind_free_text": "uninitialised-construction engine"},
    {"name": "matrix", "path": "harness/mx/src/lib.rs", "serves_properties": ["C05", "C11", "C12"], "kind_free_text": "static shape matrix engine with an allocator-level observed oracle"},
    {"name": "hist", "path": "harness/hist/src/hist_sized.rs", "serves_properties": ["C01", "C03", "C04", "C08", "C09"], "kind_free_text": "model-based history engine (proptest-generated op sequences, reference model, tracking allocator, identity-tracked payloads)"},
  ],
